@@ -62,6 +62,11 @@ const Prelude = `(set-option :produce-models true)
 (declare-fun errstr (Any) String)
 (declare-fun key48 ((Array Int Int) Int Int) (Array Int Int))
 (assert (forall ((r (Array Int Int)) (o Int) (n Int) (i Int)) (! (= (select (key48 r o n) i) (ite (and (<= 0 i) (< i 48) (< i n)) (select r (+ o i)) 0)) :pattern ((select (key48 r o n) i)))))
+(declare-fun take32 ((Array Int Int) Int Int) (Array Int Int))
+(assert (forall ((r (Array Int Int)) (o Int) (n Int) (i Int)) (! (= (select (take32 r o n) i) (ite (and (<= 0 i) (< i 32) (< i n)) (select r (+ o i)) 0)) :pattern ((select (take32 r o n) i)))))
+(declare-fun sub (Int Int) Int)
+(declare-fun subf (Int) Int)
+(declare-fun subr (Int) Int)
 (declare-fun owner (Int) Int)
 (assert (forall ((r Int)) (! (=> (>= r (- 1000)) (= (owner r) r)) :pattern ((owner r)))))
 (declare-fun idx (Int Int) Int)
